@@ -156,7 +156,8 @@ func parseJSONL(out string) (hdr []string, rows [][]*string, ok bool) {
 }
 
 func c02Equal(d c02Dialect, want, got *string) bool {
-	strict := d.Format == "JSON" || d.Format == "JSONL"
+	// JSON keeps null and "" apart; so does CSV/TSV written with every field enclosed (NULL stays bare, empty text is "")
+	strict := d.Format == "JSON" || d.Format == "JSONL" || ((d.Format == "CSV" || d.Format == "TSV") && d.EncloseAll)
 	w, g := "", ""
 	if want != nil {
 		w = *want
